@@ -47,10 +47,16 @@ Definition is_ident_char (c : ascii) : bool :=
 Fixpoint all_chars (p : ascii -> bool) (s : string) : bool :=
   match s with EmptyString => true | String c r => p c && all_chars p r end.
 
-(* an IDL-level identifier as far as this model cares: non-empty, [A-Za-z0-9_]*, and not the lone
-   underscore (which Rust reserves; see C14_underscore_refuted) *)
+(* a Rust identifier (ASCII): [A-Za-z_][A-Za-z0-9_]*, and not the lone underscore, which Rust reserves (C14_underscore_refuted);
+   a name that starts with a digit is not one (C14_digit_head_refuted, finding F-14p) *)
+(* first character: a letter or the underscore (XID_Start restricted to ASCII, plus `_`) -- a digit cannot start an identifier *)
+Definition is_ident_head (c : ascii) : bool :=
+  let n := nat_of_ascii c in
+  (((65 <=? n) && (n <=? 90)) || ((97 <=? n) && (n <=? 122)) || (n =? 95))%nat.
+Definition head_ok (s : string) : bool := match s with EmptyString => false | String c _ => is_ident_head c end.
+
 Definition plain_ident (s : string) : bool :=
-  all_chars is_ident_char s && negb (s =? "") && negb (s =? "_").
+  all_chars is_ident_char s && negb (s =? "") && negb (s =? "_") && head_ok s.
 
 Definition strip_raw (t : string) : option string :=
   match t with
